@@ -26,6 +26,7 @@ func init() {
 			"R6 each library goroutine exits on termination: the connection loop leaves on read error, the copier has no loop of its own, the watchdog's every loop has a select case on the CloseNotify channel whose edge returns. " +
 			"R7 every call of the notifier lies on the loop's exit chain or behind a Close of the transport / of the pipe fed from it on every path of its function, and the Conn implementation's Close closes the transport on every path. " +
 			"R7 the notifier is called only after the transport was closed or its end observed (no notification while the peer can still be served), and a local Close closes the transport on every path so that the loop, hence the notification, follows. " +
+			"R7 also: Close takes no mutex that another function of the library holds while it writes to the transport (a writer stuck on a peer that stopped reading must not keep Close, and with it the termination, from happening). " +
 			"Not decided: event orderings as executed schedules, io.Pipe/io.Copy internals, SCTP error-handler delivery.",
 		Rules: map[string]string{
 			"R1": "close(notify channel): mutex held, gone-flag test (or fresh channel), flag set after; channel assigned only under mutex when nil",
